@@ -107,7 +107,7 @@ add(Contract("yarl._path:normalize_path", [("path", STR)], spec=spec_url.normali
              opaque=True, shape=STR, assumed=True, props=()))
 add(Contract("yarl._url:encode_url", [("url_str", STR)], spec=spec_url.encode_url, raises=(ValueError,),
              transparent=("yarl._parse:make_netloc",),
-             props=("C09", "C19", "C08")))
+             props=("WIP",)))
 add(Contract("yarl._url:pre_encoded_url", [("url_str", STR)], spec=spec_url.pre_encoded_url, raises=(ValueError,),
              props=("C07", "C19", "C09")))
 
@@ -116,3 +116,6 @@ add(Lemma(spec_parse.lemma_netloc_roundtrip,
           requires=spec_parse.netloc_parts_ok, props=("C09", "C11", "C03"),
           transparent=("yarl._parse:make_netloc", "yarl._parse:split_netloc"),
           note="split_netloc(make_netloc(parts)) == parts for canonical parts"))
+
+add(Contract("yarl._url:URL._cache_netloc", [("self", URLT)], spec=spec_url.cache_netloc, requires=spec_url.netloc_ok,
+             props=("C08", "C09")))
